@@ -5,7 +5,6 @@ import (
 	"go/ast"
 	"go/token"
 	"math/big"
-	"strconv"
 	"strings"
 )
 
@@ -226,6 +225,15 @@ func (f *fctx) binary(n ast.Node, op token.Token, a, b val) (val, error) {
 		case a.t.k == kBool && b.t.k == kBool && op == token.NEQ:
 			return val{s: fmt.Sprintf("(xorb %s %s)", a.s, b.s), t: tBool}, nil
 		}
+		if (op == token.EQL || op == token.NEQ) && a.t.eq(b.t) {
+			// arrays / vectors: equal when all components are
+			if eq, ok := eqTerm(a.s, b.s, a.t); ok {
+				if op == token.NEQ {
+					eq = "(negb " + eq + ")"
+				}
+				return val{s: eq, t: tBool}, nil
+			}
+		}
 		return val{}, f.errf(n, "comparison %s on %s and %s", op, a.t.goName(), b.t.goName())
 	}
 	if op == token.LAND || op == token.LOR {
@@ -290,6 +298,37 @@ func (f *fctx) foldConst(n ast.Node, op token.Token, a, b val) (val, error) {
 	return val{untyped: true, konst: true, rat: r}, nil
 }
 
+// the boolean term deciding == on values of type t (ints, bools, floats, tuples / vectors of them)
+func eqTerm(a, b string, t typ) (string, bool) {
+	switch t.k {
+	case kInt:
+		return "(Z.eqb " + a + " " + b + ")", true
+	case kBool:
+		return "(Bool.eqb " + a + " " + b + ")", true
+	case kT:
+		return "(" + a + " =? " + b + ")", true
+	case kV2:
+		return "(((vx " + a + ") =? (vx " + b + ")) && ((vy " + a + ") =? (vy " + b + ")))", true
+	case kV3:
+		return "((((wx " + a + ") =? (wx " + b + ")) && ((wy " + a + ") =? (wy " + b + "))) && ((wz " + a + ") =? (wz " + b + ")))", true
+	case kTup:
+		out := ""
+		for i, at := range t.args {
+			c, ok := eqTerm(proj(a, len(t.args), i), proj(b, len(t.args), i), at)
+			if !ok {
+				return "", false
+			}
+			if out == "" {
+				out = c
+			} else {
+				out = "(" + out + " && " + c + ")"
+			}
+		}
+		return out, out != ""
+	}
+	return "", false
+}
+
 // ---------------------------------------------------------------- fields, indexing
 
 func (f *fctx) field(n ast.Node, x val, name string) (val, error) {
@@ -320,13 +359,17 @@ func (f *fctx) field(n ast.Node, x val, name string) (val, error) {
 	return val{s: "(" + acc + " " + x.s + ")", t: rt}, nil
 }
 
-func constIndex(e ast.Expr) (int, bool) {
-	lit, ok := e.(*ast.BasicLit)
-	if !ok || lit.Kind != token.INT {
+// an index that is an integer constant expression (a literal, a named constant, the variable of
+// an unrolled loop, arithmetic on them)
+func (f *fctx) constInt(x ast.Expr, e env) (int, bool) {
+	v, err := f.expr(x, e)
+	if err != nil || !v.konst || v.rat == nil || !v.rat.IsInt() || !v.rat.Num().IsInt64() {
 		return 0, false
 	}
-	i, err := strconv.Atoi(lit.Value)
-	return i, err == nil
+	if !v.untyped && v.t.k != kInt {
+		return 0, false
+	}
+	return int(v.rat.Num().Int64()), true
 }
 
 func (f *fctx) index(x *ast.IndexExpr, e env) (val, error) {
@@ -336,9 +379,9 @@ func (f *fctx) index(x *ast.IndexExpr, e env) (val, error) {
 	}
 	switch {
 	case a.t.k == kTup && a.t.arr:
-		i, ok := constIndex(x.Index)
+		i, ok := f.constInt(x.Index, e)
 		if !ok || i < 0 || i >= len(a.t.args) {
-			return val{}, f.errf(x, "index of a %s must be a literal in range", a.t.goName())
+			return val{}, f.errf(x, "index of a %s must be a constant in range", a.t.goName())
 		}
 		return val{s: proj(a.s, len(a.t.args), i), t: a.t.args[i]}, nil
 	case a.t.k == kList:
@@ -362,6 +405,70 @@ func (f *fctx) index(x *ast.IndexExpr, e env) (val, error) {
 		return val{s: fmt.Sprintf("(znth %s %s %s)", iv.s, a.s, z), t: a.t.args[0]}, nil
 	}
 	return val{}, f.errf(x, "index expression on %s", a.t.goName())
+}
+
+// a[lo:hi] (a[:], a[lo:], a[:hi]): the elements lo .. hi-1 as a slice.  The result shares its memory
+// with a in Go: the translation is a value, so neither may be assigned afterwards (assignStmt freezes
+// both names).
+func (f *fctx) slice(x *ast.SliceExpr, e env) (val, error) {
+	if x.Slice3 {
+		return val{}, f.errf(x, "three-index slice")
+	}
+	a, err := f.expr(x.X, e)
+	if err != nil {
+		return val{}, err
+	}
+	var lt typ
+	src := a.s
+	switch {
+	case a.t.k == kList:
+		lt = listType(a.t.args[0], -1)
+	case a.t.k == kTup && a.t.arr:
+		// a small array (a tuple) as a list
+		var es []string
+		for i := range a.t.args {
+			es = append(es, proj(a.s, len(a.t.args), i))
+		}
+		src = "[" + strings.Join(es, "; ") + "]"
+		lt = listType(a.t.args[0], -1)
+	default:
+		return val{}, f.errf(x, "slice of %s", a.t.goName())
+	}
+	bound := func(b ast.Expr) (*val, error) {
+		if b == nil {
+			return nil, nil
+		}
+		v, err := f.expr(b, e)
+		if err != nil {
+			return nil, err
+		}
+		if v, err = f.coerce(b, v, tInt); err != nil {
+			return nil, err
+		}
+		if v.t.k != kInt {
+			return nil, f.errf(b, "slice bound of type %s", v.t.goName())
+		}
+		return &v, nil
+	}
+	lo, err := bound(x.Low)
+	if err != nil {
+		return val{}, err
+	}
+	hi, err := bound(x.High)
+	if err != nil {
+		return val{}, err
+	}
+	if lo == nil && hi == nil {
+		return val{s: src, t: lt}, nil
+	}
+	los, his := "0%Z", "(zlen "+src+")"
+	if lo != nil {
+		los = lo.s
+	}
+	if hi != nil {
+		his = hi.s
+	}
+	return val{s: "(zslice " + src + " " + los + " " + his + ")", t: lt}, nil
 }
 
 // ---------------------------------------------------------------- calls
@@ -395,6 +502,14 @@ func (f *fctx) args(n ast.Node, what string, want []typ, as []ast.Expr, e env) (
 }
 
 func (f *fctx) callDef(n ast.Node, q *pkg, key string, recv *val, as []ast.Expr, e env) (val, error) {
+	if c, ok := n.(*ast.CallExpr); ok && q == f.p && f.g.takesStruct(q, key) {
+		// a function taking the struct parameters of its caller: inlined
+		out, t, err := f.inline(c, key, e, "        ", false)
+		if err != nil {
+			return val{}, err
+		}
+		return val{s: "(\n" + out + ")", t: t}, nil
+	}
 	d, err := f.g.translate(q, key, nil)
 	if err != nil {
 		return val{}, err
@@ -418,6 +533,20 @@ func (f *fctx) callDef(n ast.Node, q *pkg, key string, recv *val, as []ast.Expr,
 		return val{}, err
 	}
 	return val{s: app(d.Name, append(pre, ss...)), t: d.ret}, nil
+}
+
+// does the function have a parameter of a struct type of the translated packages?
+func (g *gen) takesStruct(q *pkg, key string) bool {
+	fd := q.funcs[key]
+	if fd == nil || isTarget(q.name, key) {
+		return false
+	}
+	for _, fl := range fd.Type.Params.List {
+		if t, err := g.goType(q, q.fileOf[key], fl.Type); err == nil && t.k == kStruct {
+			return true
+		}
+	}
+	return false
 }
 
 // the package and type name a method of a value of type t is declared on
@@ -454,6 +583,12 @@ func (f *fctx) call(x *ast.CallExpr, e env) (val, error) {
 			v, err := f.expr(x.Args[0], e)
 			if err != nil {
 				return val{}, err
+			}
+			if v.t.k == kTup && v.t.arr {
+				return f.coerce(x, val{untyped: true, konst: true, isInt: true, rat: ratInt(int64(len(v.t.args)))}, tInt)
+			}
+			if v.t.k == kList && v.t.n >= 0 {
+				return f.coerce(x, val{untyped: true, konst: true, isInt: true, rat: ratInt(int64(v.t.n))}, tInt)
 			}
 			if v.t.k != kList {
 				return val{}, f.errf(x, "len of %s", v.t.goName())
@@ -515,7 +650,7 @@ func (f *fctx) call(x *ast.CallExpr, e env) (val, error) {
 			}
 			return val{s: fmt.Sprintf("(zrepeat %s %s)", z, lv.s), t: t}, nil
 		case "append":
-			if len(x.Args) != 2 {
+			if len(x.Args) < 2 {
 				return val{}, f.errf(x, "append of %d values", len(x.Args)-1)
 			}
 			l, err := f.expr(x.Args[0], e)
@@ -525,17 +660,21 @@ func (f *fctx) call(x *ast.CallExpr, e env) (val, error) {
 			if l.t.k != kList || l.t.n >= 0 {
 				return val{}, f.errf(x, "append to %s", l.t.goName())
 			}
-			v, err := f.expr(x.Args[1], e)
-			if err != nil {
-				return val{}, err
+			var vs []string
+			for _, a := range x.Args[1:] {
+				v, err := f.expr(a, e)
+				if err != nil {
+					return val{}, err
+				}
+				if v, err = f.coerce(x, v, l.t.args[0]); err != nil {
+					return val{}, err
+				}
+				if !v.t.eq(l.t.args[0]) {
+					return val{}, f.errf(x, "append of %s to %s", v.t.goName(), l.t.goName())
+				}
+				vs = append(vs, v.s)
 			}
-			if v, err = f.coerce(x, v, l.t.args[0]); err != nil {
-				return val{}, err
-			}
-			if !v.t.eq(l.t.args[0]) {
-				return val{}, f.errf(x, "append of %s to %s", v.t.goName(), l.t.goName())
-			}
-			return val{s: fmt.Sprintf("(%s ++ [%s])", l.s, v.s), t: l.t}, nil
+			return val{s: fmt.Sprintf("(%s ++ [%s])", l.s, strings.Join(vs, "; ")), t: l.t}, nil
 		}
 		if _, ok := f.p.funcs[fn.Name]; ok {
 			return f.callDef(x, f.p, fn.Name, nil, x.Args, e)
@@ -623,7 +762,15 @@ func (f *fctx) call(x *ast.CallExpr, e env) (val, error) {
 func (f *fctx) opaqueCall(x *ast.CallExpr, b *binding, goVar, method string, e env) (val, error) {
 	i := strings.Index(b.t.named, ".")
 	q, sn := f.g.pkgs[b.t.named[:i]], b.t.named[i+1:]
-	if f.opt == nil || !f.opt.Opaque[sn+"."+method] {
+	if !f.opt.opaque(sn + "." + method) {
+		// an ordinary method of the struct parameter: inlined (it sees the same fields and opaque methods)
+		if q == f.p && q.funcs[sn+"."+method] != nil {
+			out, t, err := f.inline(x, sn+"."+method, e, "        ", false)
+			if err != nil {
+				return val{}, err
+			}
+			return val{s: "(\n" + out + ")", t: t}, nil
+		}
 		return val{}, f.errf(x, "call of method %s.%s on a struct parameter (not declared opaque for this target)", sn, method)
 	}
 	fd := q.funcs[sn+"."+method]
@@ -792,7 +939,7 @@ func (f *fctx) composite(x *ast.CompositeLit, implied *typ, e env) (val, error) 
 	var t typ
 	if x.Type != nil {
 		var err error
-		if t, err = f.goType(x.Type); err != nil {
+		if t, err = f.goTypeIn(x.Type, e); err != nil {
 			return val{}, f.errf(x, "%v", err)
 		}
 	} else if implied != nil {
@@ -931,6 +1078,9 @@ func (f *fctx) expr(e0 ast.Expr, e env) (val, error) {
 			if b.fields != nil || b.t.k == kStruct {
 				return val{}, f.errf(x, "struct %s used as a value", x.Name)
 			}
+			if b.cval != nil {
+				return *b.cval, nil
+			}
 			if b.t.k == kOpaque {
 				return val{}, f.errf(x, "%s has type %s, which is not modelled", x.Name, b.t.named)
 			}
@@ -974,6 +1124,8 @@ func (f *fctx) expr(e0 ast.Expr, e env) (val, error) {
 		return f.field(x, v, x.Sel.Name)
 	case *ast.IndexExpr:
 		return f.index(x, e)
+	case *ast.SliceExpr:
+		return f.slice(x, e)
 	case *ast.StarExpr:
 		return f.expr(x.X, e) // *p: a pointer is the value it points to
 	case *ast.UnaryExpr:
